@@ -211,7 +211,7 @@ def check(prop, tier, seed):
     run.sample({"src": srcs[len(srcs) // 2][0], "predicted_shape": preds[len(preds) // 2]["shape"]})
     # seeded random larger grammars: module-level checks + client
     extra = []
-    for _ in range(160 if tier == "quick" else 2500):
+    for _ in range(160 if tier == "quick" else 8000):
         G = pipeline.random_grammar(rng, max_nts=5, max_ts=4, max_rules=10, max_rhs=6)
         pres = grammar.present(G, rng, payload=None)
         for t in pres["ts"]:
